@@ -335,6 +335,14 @@ class InterpCore:
                         f.locals[name] = v.value
                         return v.value
                     raise mk_exc(UnboundLocalError, name, where=fr.where())
+                if isinstance(v, SymOpt) and not fr.spec:
+                    # narrow Optional locals once the path condition decides them
+                    if self.ctx.check(v.is_none) == z3.unsat:
+                        f.locals[name] = v.value
+                        return v.value
+                    if self.ctx.check(z3.Not(v.is_none)) == z3.unsat:
+                        f.locals[name] = None
+                        return None
                 return v
             if name in f.local_names and name not in f.nonlocals:
                 raise mk_exc(UnboundLocalError, name, where=fr.where())
